@@ -153,3 +153,14 @@ Fixpoint ordered (ws : list (Z * Z)) : bool :=
   | _ => true
   end.
 Definition spacing_table (tr : list (Z * Z)) (cur : Z) : bool := ordered (windows tr cur).
+
+(** ** The property's premise on POSIX rules, for year y: both rule transitions, read on either
+    clock, lie more than one day inside the calendar year; and they are two different instants *)
+Definition year_start (y : Z) : Z := (dn_of_ymd y 1 1 - EPOCH_DN) * 86400.
+Definition premise_year (a : srule) (y : Z) : bool :=
+  let lo := year_start y + 86400 in
+  let hi := year_start (y + 1) - 86400 in
+  let s := rule_start_utc a y in
+  let e := rule_end_utc a y in
+  forallb (fun l => (lo <? l) && (l <? hi)) [s + r_std a; s + r_dst a; e + r_std a; e + r_dst a]
+  && negb (s =? e).
